@@ -934,7 +934,66 @@ fn doms_alloc() -> Vec<Vec<u64>> {
     vec![range(8), vec![6, 8, 10, 12, 14], range(5), range(4), vec![1, 2], vec![0, 3]]
 }
 
+// C17 clause 2 over further input forms and non-coded compositions (the iterator / array / reference-to-reference forms
+// reach the storages through `PushStorage<PushIter<_>>` and friends, not through the slice path).
+#[cfg(not(kani))]
+fn log_case<R: Default>(n: usize, storages: usize, per_push: usize, put: impl Fn(&mut R, usize)) {
+    let mut r = R::default();
+    let before = crate::alloc_count::calls();
+    for i in 0..n {
+        put(&mut r, i);
+    }
+    let calls = crate::alloc_count::calls() - before;
+    let elems = 1 + n * per_push.max(1);
+    let log = (usize::BITS - elems.leading_zeros()) as usize;
+    vassert!(calls <= storages * (log + 2), "VF:alloc.forms.more_than_logarithmic_allocator_calls");
+    vcover!(calls > 0, "growth happened");
+}
+#[cfg(kani)]
+fn run_alloc_forms(_v: &[u64]) {}
+#[cfg(not(kani))]
+fn run_alloc_forms(v: &[u64]) {
+    use flatcontainer::PushIter;
+    crate::section("VF:alloc.forms");
+    let n = 1usize << v[1];
+    const A3: [u8; 3] = [7, 8, 9];
+    static RA3: &[u8; 3] = &A3;
+    static RRA3: &&[u8; 3] = &RA3;
+    static RS: &&[u8] = &BYTES[2];
+    static STRS: [&str; 3] = ["ab", "é𝄞", "ab"];
+    static RSTR: [&&str; 3] = [&STRS[0], &STRS[1], &STRS[2]];
+    match v[0] {
+        0 => log_case::<OwnedRegion<u8>>(n, 1, 3, |r, _| { let _ = r.push(A3); }),
+        1 => log_case::<OwnedRegion<u8>>(n, 1, 3, |r, _| { let _ = r.push(RA3); }),
+        2 => log_case::<OwnedRegion<u8>>(n, 1, 3, |r, _| { let _ = r.push(*RRA3); }),
+        3 => log_case::<OwnedRegion<u8>>(n, 1, 3, |r, _| { let _ = r.push(PushIter(BYTES[2].iter().copied())); }),
+        4 => log_case::<OwnedRegion<u8>>(n, 1, 3, |r, _| { let _ = r.push(RS); }),
+        5 => log_case::<SliceRegion<MirrorRegion<u8>>>(n, 1, 3, |r, _| { let _ = r.push(A3); }),
+        6 => log_case::<SliceRegion<MirrorRegion<u8>>>(n, 1, 3, |r, _| { let _ = r.push(RA3); }),
+        7 => log_case::<StringRegion>(n, 1, 5, |r, i| { let _ = r.push(RSTR[i % 3]); }),
+        8 => log_case::<ColumnsRegion<MirrorRegion<u8>>>(n, 5, 3, |r, i| { let _ = r.push(ROWS[i % 4]); }),
+        9 => log_case::<ColumnsRegion<MirrorRegion<u8>>>(n, 5, 3, |r, _| { let _ = r.push(A3); }),
+        10 => log_case::<ColumnsRegion<MirrorRegion<u8>>>(n, 5, 3, |r, _| { let _ = r.push(PushIter(BYTES[2].iter().copied())); }),
+        11 => log_case::<ColumnsRegion<StringRegion>>(n, 8, 5, |r, i| { let _ = r.push(SROWS[i % 4]); }),
+        12 => log_case::<ConsecutiveIndexPairs<OwnedRegion<u8>>>(n, 4, 3, |r, i| { let _ = r.push(BYTES[i % 4]); }),
+        13 => log_case::<CollapseSequence<ConsecutiveIndexPairs<StringRegion>>>(n, 4, 5, |r, i| { let _ = r.push(STRS[i % 2]); }),
+        14 => log_case::<FlatStack<OwnedRegion<u8>>>(n, 2, 3, |r, i| r.copy(BYTES[i % 4])),
+        15 => log_case::<FlatStack<SliceRegion<MirrorRegion<u8>>>>(n, 2, 3, |r, i| r.copy(BYTES[i % 4])),
+        16 => log_case::<FlatStack<ConsecutiveIndexPairs<OwnedRegion<u8>>, IndexOptimized>>(n, 6, 3, |r, i| r.copy(BYTES[i % 4])),
+        17 => log_case::<SliceRegion<ConsecutiveIndexPairs<StringRegion>, IndexOptimized>>(n, 6, 5, |r, i| { let _ = r.push(SROWS[i % 4]); }),
+        _ => log_case::<Vec<u8>>(n, 1, 1, |r, i| { let _ = <Vec<u8> as Push<&u8>>::push(r, &BYTES[2][i % 3]); }),
+    }
+}
+fn pre_alloc_forms(v: &[u64]) -> bool {
+    v[0] < 19 && (6..=14).contains(&v[1])
+}
+fn doms_alloc_forms() -> Vec<Vec<u64>> {
+    vec![range(19), vec![6, 8, 10, 12, 14]]
+}
+
 pub fn harnesses_alloc() -> Vec<H> {
-    vec![H { name: "alloc_discipline", props: &["C17"], nargs: 6, pre: pre_alloc, doms: doms_alloc, run: run_alloc, panic_ok: false,
+    vec![H { name: "alloc_forms", props: &["C17"], nargs: 2, pre: pre_alloc_forms, doms: doms_alloc_forms, run: run_alloc_forms, panic_ok: false,
+        bound: "19 (composition, input form) pairs beyond the slice form: OwnedRegion via [T;N], &[T;N], &&[T;N], PushIter, &&[T]; SliceRegion via arrays; StringRegion via &&str; ColumnsRegion (mirror and string columns) via slice / array / PushIter rows; ConsecutiveIndexPairs, CollapseSequence, FlatStack (Vec and IndexOptimized offsets), SliceRegion over consecutive pairs; n = 2^6 .. 2^14 pushes without pre-sizing: at most storages x (log2(elements)+2) allocator calls", kani: false },
+    H { name: "alloc_discipline", props: &["C17"], nargs: 6, pre: pre_alloc, doms: doms_alloc, run: run_alloc, panic_ok: false,
         bound: "8 vector-backed structural regions, n = 2^6 .. 2^14 items from a 3-value repeating pattern over static inputs, counting global allocator: without pre-sizing at most storages x (log2(elements)+2) allocator calls; after reserve_items (empty or populated target) / reserve_regions / merge_regions of up to 64 announced items, zero allocator calls while pushing them", kani: false }]
 }
